@@ -33,6 +33,11 @@ struct XFifo : scl::Fifo<UInt> {
 	const FifoCapabilities::Choice &choice() { return dynamic_cast<scl::FifoMeta*>(m_area.metaInfo())->fifoChoice; }
 };
 
+struct XTxFifo : scl::TransactionalFifo<UInt> {
+	using scl::TransactionalFifo<UInt>::TransactionalFifo;
+	const FifoCapabilities::Choice &choice() { return dynamic_cast<scl::FifoMeta*>(m_area.metaInfo())->fifoChoice; }
+};
+
 struct Params {
 	std::string id = "c";
 	size_t minDepth = 4;
@@ -354,7 +359,7 @@ void runTransactional(const Params &p, std::ostream &out, bool useCutoff)
 	Clock clk({ .absoluteFrequency = 100'000'000 });
 	ClockScope cs(clk);
 	BitWidth w{ p.w };
-	scl::TransactionalFifo<UInt> fifo{ p.minDepth, UInt{ w }, mkLatency(p) };
+	XTxFifo fifo{ p.minDepth, UInt{ w }, mkLatency(p) };
 	size_t depth = fifo.depth();
 	size_t k = 0; while ((size_t(1) << k) < depth) k++;
 	Bit push, pop; UInt pushData = w;
@@ -376,7 +381,8 @@ void runTransactional(const Params &p, std::ostream &out, bool useCutoff)
 	IF(popRollback) fifo.rollbackPop();
 	fifo.generate();
 	if (p.pp) design.postprocess();
-	out << "T " << p.id << " kind=" << (useCutoff ? "transactional_cutoff" : "transactional") << " depth=" << depth << " lat=" << p.latKind << p.latVal
+	out << "T " << p.id << " kind=" << (useCutoff ? "transactional_cutoff" : "transactional") << " k=" << k << " L=" << fifo.choice().latency_writeToEmpty
+		<< " depth=" << depth << " lat=" << p.latKind << p.latVal
 		<< " pp=" << (p.pp ? 1 : 0) << " seed=" << p.seed << " minDepth=" << p.minDepth << " w=" << p.w << "\n";
 	sim::ReferenceSimulator s(false);
 	uint64_t mask = (1ull << p.w) - 1;
